@@ -11,3 +11,14 @@ open XotModel.Props
 #print axioms C18_idem
 #print axioms C18_safe
 #print axioms C18_safe_separated
+#print axioms C18_reachable_step_full
+#print axioms C18_reachable_position_full
+#print axioms C18_reachable_exact_full
+#print axioms C18_reachable_exact_members_full
+#print axioms C18_reachable_frame_full
+#print axioms C18_reachable_idem_full
+#print axioms C18_reachable_safe_full
+#print axioms C18_reachable_safe_separated_full
+#print axioms c18Calls_wellKinded
+#print axioms c18Roots
+#print axioms c18Pos
